@@ -205,7 +205,7 @@ UNIT = []
 
 
 class Frame:
-    __slots__ = ("fn", "locals", "id")
+    __slots__ = ("fn", "locals", "id", "gen")
     _n = 0
 
     def __init__(self, fn):
@@ -213,6 +213,7 @@ class Frame:
         self.locals = [None] * len(fn.locals)
         Frame._n += 1
         self.id = Frame._n
+        self.gen = {}
 
 
 class Interp:
@@ -227,7 +228,7 @@ class Interp:
         self.overrides = {}  # fn id -> callable(args) (e.g. cached CPU detectors)
 
     # ------------------------------------------------------------------ entry
-    def call(self, fid, args):
+    def call(self, fid, args, gen=None):
         f = self.P.fns.get(fid)
         if f is None:
             fs = self.P.find(fid)
@@ -235,7 +236,7 @@ class Interp:
                 raise Unsupported("function %s not found (%d matches)" % (fid, len(fs)))
             f = fs[0]
         self.steps = 0
-        return self.run(f, list(args), 0)
+        return self.run(f, list(args), 0, gen)
 
     def reset(self):
         self.effects = []
@@ -371,8 +372,12 @@ class Interp:
         return v
 
     # ------------------------------------------------------------------ operands
-    def const(self, k):
+    def const(self, k, fr=None):
         ty = k.get("ty", "")
+        if "param" in k and "v" not in k:
+            if fr is not None and k["param"] in fr.gen:
+                return fr.gen[k["param"]]
+            raise Unsupported("unbound const generic parameter %s" % k["param"])
         if "v" in k:
             if "sv" in k:
                 return k["sv"]
@@ -479,7 +484,7 @@ class Interp:
                 return copy.deepcopy(v)
             return v
         if op[0] == "k":
-            return self.const(op[1])
+            return self.const(op[1], fr)
         raise Unsupported("operand %r" % (op,))
 
     def type_of_place(self, fr, pl):
@@ -518,10 +523,12 @@ class Interp:
             return "?"
 
     # ------------------------------------------------------------------ execution
-    def run(self, f, args, depth):
+    def run(self, f, args, depth, gen=None):
         if depth > self.max_depth:
             raise Unsupported("call depth exceeded in %s" % f.id)
         fr = Frame(f)
+        if gen:
+            fr.gen = gen
         if len(args) != f.nargs:
             raise Unsupported("arity mismatch calling %s: %d args for %d params" % (f.id, len(args), f.nargs))
         for i, a in enumerate(args):
@@ -791,7 +798,20 @@ class Interp:
                 args = [args[0]] + list(args[1])
             elif body.kind == "closure" and body.nargs == len(args[1]) + 1 if (body.kind == "closure" and len(args) == 2 and isinstance(args[1], list)) else False:
                 args = [args[0]] + list(args[1])
-            return self.run(body, args, depth + 1)
+            gen = None
+            names = body.raw.get("gen") or []
+            g = k.get("g", []) if isinstance(k, dict) else []
+            if names and len(names) == len(g):
+                gen = {}
+                for nm, val in zip(names, g):
+                    v = val.strip()
+                    if v in ("true", "false"):
+                        gen[nm] = 1 if v == "true" else 0
+                    elif re.fullmatch(r"-?\d+", v):
+                        gen[nm] = int(v)
+                    elif fr is not None and v in fr.gen:
+                        gen[nm] = fr.gen[v]
+            return self.run(body, args, depth + 1, gen)
         return self.std(fr, name, fname, k, args, depth)
 
     def std(self, fr, name, fname, k, args, depth):
